@@ -355,6 +355,16 @@ func grpcWriteErrorCase(r *Recorder, pid string, failWrite int, mode string) {
 func TestC15(t *testing.T) {
 	r := NewRecorder(t, "C15")
 	defer r.Close(t)
+	// a Write on the TCP variant interrupted by a transport timeout at every interesting cut, then
+	// the application's retry (Flush as documented, or Write again with the rest): no byte lost,
+	// duplicated or reordered, and the stream goes on
+	for _, l := range []int{1, 12, 300} {
+		for _, cut := range []int{0, 1, 5, 17, 18, 19, 18 + l, 18 + l + 15} {
+			for _, mode := range []string{"flush", "rewrite"} {
+				writeRetryCase(r, "C15", l, cut, mode)
+			}
+		}
+	}
 	// the TCP variant's transparent chunking across a write timeout (what Write and Flush report is
 	// what reaches the peer)
 	for _, tc := range [][2]int{{70000, 65535 + 34 + 18 + 1000}, {150000, 2*(65535+34) + 18 + 7}} {
